@@ -84,8 +84,8 @@ def run(check, tier):
     rnd = random.Random(seed())
     for a in (h.QUICK_NUM_IDX if quick else h.NUM_IDX):
         for n in ((3,) if quick else (1, 2, 3)):
-            fixed = dict(a=a, n=n, menu=h.QUICK_NUM_IDX, wrap=rnd.randrange(3)) if quick else dict(a=a, n=n)
-            jobs.append(dict(fn="rt_numeric_seq", fixed=fixed, timeout=t * 2 if quick else 3000,
+            fixed = dict(a=a, n=n, menu=h.QUICK_NUM_IDX, wrap=rnd.randrange(3)) if quick else dict(a=a, n=n, wrap=rnd.randrange(3))
+            jobs.append(dict(fn="rt_numeric_seq", fixed=fixed, timeout=t * 2 if quick else 2400,
                              key=f"numeric_seq:a={a}"))
     nleaf = len(sc.LEAVES)
     # leaves with a recorded known finding "leaf:<name>:in_container" are left out of the mixed-graph
@@ -100,13 +100,14 @@ def run(check, tier):
     rnd = random.Random(seed())
     for k0 in range(N_SCALAR, N_SCALAR + N_CONT):
         for k1 in range(N_KINDS):
-            fixed = dict(k0=k0, k1=k1, skip_leaves=skip)
-            if quick:
-                # quick: grandchildren pinned to two representative kinds per job, leaf selector seeded
-                fixed.update(k3=rnd.choice([0, 2, 6, 8, 9]), k4=rnd.choice([1, 3, 5, 7]), sel=rnd.choice(pool),
+            # the second child's kind (k2) stays symbolic; grandchildren kinds, leaf selector and the small numbers are
+            # pinned per job: one pin set per job in the quick tier, six different ones in the thorough tier
+            for rep in range(1 if quick else 6):
+                fixed = dict(k0=k0, k1=k1, skip_leaves=skip)
+                fixed.update(k3=rnd.choice([0, 2, 6, 8, 9] if quick else list(range(N_KINDS))),
+                             k4=rnd.choice([1, 3, 5, 7] if quick else list(range(N_KINDS))), sel=rnd.choice(pool),
                              i=rnd.choice([-1, 0, 1]), f=rnd.choice([1, 6]))
-            jobs.append(dict(fn="rt_graph", fixed=fixed, timeout=t if quick else 1500,
-                             key=f"graph:k0={k0},k1={k1}"))
+                jobs.append(dict(fn="rt_graph", fixed=fixed, timeout=t, key=f"graph:k0={k0},k1={k1}"))
     for ki in range(11):
         if quick:
             jobs.append(dict(fn="rt_keys", fixed=dict(ki=ki, sel=rnd.choice(pool), ni=rnd.randrange(8),
@@ -114,7 +115,7 @@ def run(check, tier):
                              timeout=t * 2, key=f"keys:ki={ki}"))
         else:
             for ni in range(8):
-                jobs.append(dict(fn="rt_keys", fixed=dict(ki=ki, ni=ni, sel=rnd.choice(pool), skip_leaves=skip), timeout=3000,
-                                 key=f"keys:ki={ki}"))
+                jobs.append(dict(fn="rt_keys", fixed=dict(ki=ki, ni=ni, sel=rnd.choice(pool), k0=rnd.randrange(N_SCALAR + 1),
+                                                          skip_leaves=skip), timeout=t * 2, key=f"keys:ki={ki}"))
     run_jobs(check, FILE, jobs)
     validate_stub(check, 40 if quick else 200)
